@@ -199,4 +199,134 @@ theorem asStr_code_eq_model (parseInt : Str → Except PyErr Int) (sv tr : PyV) 
     simp [execL, execS, eval, evalList, List.lookup, getField, ofStyle, assocSet, Field.toVal, ht, hc', callMethod,
       strItems_map_str, strItems_map_comp, strItems, Attrs.asStr, Lit.toPy, resultOf]
 
+/-! ### the name translation of `__getattribute__` and `__setattr__` (names that are not reserved) -/
+
+/-- `StyleAttribute.RESERVED_ATTRIBUTES`, as the dump has it -/
+def reservedNames : List Str :=
+  ["_styleValue", "_styleDict", "_asStr", "_ensureHtmlAttribute", "tag", "_tagRef", "setTag", "isEmpty", "setProperty"].map
+    String.toList
+
+/-- the test `name in StyleAttribute.RESERVED_ATTRIBUTES`, as dumped -/
+def reservedTest : Expr :=
+  .cmp .isIn (.var "name") (.tuple [(.const (.str "_styleValue")), (.const (.str "_styleDict")), (.const (.str "_asStr")),
+    (.const (.str "_ensureHtmlAttribute")), (.const (.str "tag")), (.const (.str "_tagRef")), (.const (.str "setTag")),
+    (.const (.str "isEmpty")), (.const (.str "setProperty"))])
+
+theorem reservedTest_eval (cx : Ctx) (env : Env) (name : Str) (hN : env.lookup "name" = some (.py (.str name))) :
+    eval cx env reservedTest = .ok (.py (.bool (reservedNames.contains name))) := by
+  simp [reservedTest, eval, evalList, hN, toTuple, pyCompare, compareB, pyIn, pyEqV, Lit.toPy, reservedNames, List.contains_cons,
+    Bool.or_assoc]
+
+/-- the static method `camelCaseToDashName` as the methods see it: `Attrs.camelToDash` (`C08Code`) -/
+theorem styleCx_camel (parseInt : Str → Except PyErr Int) :
+    (styleCx parseInt).funs "camelCaseToDashName"
+      = some (runKw { parseInt := parseInt, funs := callIn parseInt [] } StyleAttribute_camelCaseToDashName_ast) := rfl
+
+theorem camel_run (parseInt : Str → Except PyErr Int) (s : Str) :
+    runKw { parseInt := parseInt, funs := callIn parseInt [] } StyleAttribute_camelCaseToDashName_ast [.py (.str s)] []
+      = .ok (.py (.str (Attrs.camelToDash s))) :=
+  C08Code.camelCaseToDashName_code_eq_model parseInt s
+
+/-- the last expression of `__getattribute__`, `self._styleDict.get(name) or ''`: the value, `''` when the name is absent -/
+theorem get_or_eval (cx : Ctx) (env : Env) (sv tr : PyV) (d : Attrs.AL Str) (n : Str)
+    (hS : env.lookup "self" = some (.obj (ofStyle sv tr d))) (hN : env.lookup "name" = some (.py (.str n))) :
+    eval cx env (.or (.meth (.attr (.var "self") "_styleDict") "get" [(.var "name")]) (.const (.str "")))
+      = .ok (.py (.str ((Attrs.aget n d).getD []))) := by
+  cases hg : Attrs.aget n d with
+  | none =>
+    simp [eval, evalList, hS, hN, getAttr, ofStyle, List.lookup, Field.toVal, callMethod, hashable, dGet_embAL, hg, Val.truthy,
+      truthy, Lit.toPy]
+  | some w =>
+    cases w with
+    | nil =>
+      simp [eval, evalList, hS, hN, getAttr, ofStyle, List.lookup, Field.toVal, callMethod, hashable, dGet_embAL, hg, Val.truthy,
+        truthy, Lit.toPy]
+    | cons c r =>
+      simp [eval, evalList, hS, hN, getAttr, ofStyle, List.lookup, Field.toVal, callMethod, hashable, dGet_embAL, hg, Val.truthy,
+        truthy, Lit.toPy]
+
+/-- `style.<name>` (`__getattribute__(self, name)`) for every style map and every name that is not reserved and does not start
+with `__`: the hand model's `Attrs.styleDotGet` — the camel-case name is translated to its dash name when that has a dash,
+the value is `''` when the name is absent; the object is unchanged. -/
+theorem getattribute_code_eq_model (parseInt : Str → Except PyErr Int) (sv tr : PyV) (e : Attrs.El) (name : Str)
+    (hres : reservedNames.contains name = false) (hdd : "__".toList.isPrefixOf name = false) :
+    runMeth (styleCx parseInt) StyleAttribute_getattribute_ast (ofStyle sv tr e.sty) [.py (.str name)]
+      = (some (ofStyle sv tr e.sty), .ok (.py (.str (Attrs.styleDotGet name e)))) := by
+  have h1 := reservedTest_eval (styleCx parseInt) [("self", .obj (ofStyle sv tr e.sty)), ("name", .py (.str name))] name
+    (by simp [List.lookup])
+  have h3 := fun env n => get_or_eval (styleCx parseInt) env sv tr e.sty n
+  have hE1 : reservedTest = Expr.cmp .isIn (.var "name") (.tuple [(.const (.str "_styleValue")),
+    (.const (.str "_styleDict")), (.const (.str "_asStr")), (.const (.str "_ensureHtmlAttribute")), (.const (.str "tag")),
+    (.const (.str "_tagRef")), (.const (.str "setTag")), (.const (.str "isEmpty")), (.const (.str "setProperty"))]) := rfl
+  simp only [runMeth, StyleAttribute_getattribute_ast, bindArgs, List.lookup, Option.isSome, List.isEmpty, Bool.false_eq_true,
+    if_false, if_true]
+  rw [← hE1]
+  generalize reservedTest = E1 at h1 ⊢
+  have hdd' : ['_', '_'].isPrefixOf name = false := hdd
+  have hres' : name ∉ reservedNames := by simpa using hres
+  simp only [ofStyle] at h1 h3
+  generalize (Expr.or (.meth (.attr (.var "self") "_styleDict") "get" [(.var "name")]) (.const (.str ""))) = E3 at h3 ⊢
+  by_cases hdash : (Attrs.camelToDash name).contains '-' = true
+  · have hdash' : '-' ∈ Attrs.camelToDash name := by simpa using hdash
+    simp [execL, execS, h1, hres', eval, evalList, List.lookup, callMethod, Lit.toPy, hdd', Val.truthy, truthy,
+      styleCx_camel, camel_run, aliasOK, Val.mutable, assocSet, pyCompare, compareB, pyIn, hdash', h3, ofStyle, resultOf,
+      Attrs.styleDotGet, hdash]
+  · have hdash' : '-' ∉ Attrs.camelToDash name := by simpa using hdash
+    simp [execL, execS, h1, hres', eval, evalList, List.lookup, callMethod, Lit.toPy, hdd', Val.truthy, truthy,
+      styleCx_camel, camel_run, aliasOK, Val.mutable, assocSet, pyCompare, compareB, pyIn, hdash', h3, ofStyle, resultOf,
+      Attrs.styleDotGet, hdash]
+
+/-- `style.<name> = val` (`__setattr__(self, name, val)`) for every style map, every name that is not reserved, and every value
+that is a text or `None`: the map becomes that of the hand model's `Attrs.styleDotSet` (the name is translated to its dash
+name; a false value deletes it — an absent name is no error —, another is stored); the call returns `val`. -/
+theorem setattr_code_eq_model (parseInt : Str → Except PyErr Int) (sv tr : PyV) (e : Attrs.El) (name : Str) (v : Option Str)
+    (hres : reservedNames.contains name = false) :
+    runMeth (styleCx parseInt) StyleAttribute_setattr_ast (ofStyle sv tr e.sty) [.py (.str name), .py (optV v)]
+      = (some (ofStyle sv tr (Attrs.styleDotSet name v e).sty), .ok (.py (optV v))) := by
+  have h1 := reservedTest_eval (styleCx parseInt)
+    [("self", .obj (ofStyle sv tr e.sty)), ("name", .py (.str name)), ("val", .py (optV v))] name (by simp [List.lookup])
+  have hE1 : reservedTest = Expr.cmp .isIn (.var "name") (.tuple [(.const (.str "_styleValue")),
+    (.const (.str "_styleDict")), (.const (.str "_asStr")), (.const (.str "_ensureHtmlAttribute")), (.const (.str "tag")),
+    (.const (.str "_tagRef")), (.const (.str "setTag")), (.const (.str "isEmpty")), (.const (.str "setProperty"))]) := rfl
+  have hsty : (Attrs.styleDotSet name v e).sty
+      = if Attrs.emptyVal v then Attrs.adel (Attrs.camelToDash name) e.sty
+        else Attrs.aset (Attrs.camelToDash name) (v.getD []) e.sty := by
+    rw [Attrs.styleDotSet, ensureStyle_sty]
+  rw [hsty]
+  have hcam := camel_run parseInt name
+  have hpe : ∀ a b : Str, pyEqV (.str a) (.str b) = decide (a = b) := fun _ _ => rfl
+  simp only [runMeth, StyleAttribute_setattr_ast, bindArgs, List.lookup, Option.isSome, List.isEmpty, Bool.false_eq_true,
+    if_false, if_true]
+  rw [← hE1]
+  generalize reservedTest = E1 at h1 ⊢
+  have hres' : name ∉ reservedNames := by simpa using hres
+  simp only [ofStyle] at h1
+  generalize Attrs.camelToDash name = n at hcam ⊢
+  by_cases hne : n = name
+  · subst hne
+    rcases v with _ | _ | ⟨c, r⟩ <;> simp only [optV] at h1 ⊢
+    · cases hg : Attrs.aget n e.sty <;>
+        simp [execL, execS, h1, hres', eval, evalList, List.lookup, Lit.toPy, Val.truthy, truthy, styleCx_camel, hcam, aliasOK,
+          Val.mutable, assocSet, pyCompare, compareB, bnot, pyEq, hpe, pyIn, hashable, any_embAL, hg, getField, Field.toVal,
+          delItemAt, dGet_embAL, dDel_embAL, putField, styleCx_ensure, ofStyle, optV, resultOf, Attrs.emptyVal, adel_absent]
+    · cases hg : Attrs.aget n e.sty <;>
+        simp [execL, execS, h1, hres', eval, evalList, List.lookup, Lit.toPy, Val.truthy, truthy, styleCx_camel, hcam, aliasOK,
+          Val.mutable, assocSet, pyCompare, compareB, bnot, pyEq, hpe, pyIn, hashable, any_embAL, hg, getField, Field.toVal,
+          delItemAt, dGet_embAL, dDel_embAL, putField, styleCx_ensure, ofStyle, optV, resultOf, Attrs.emptyVal, adel_absent]
+    · simp [execL, execS, h1, hres', eval, evalList, List.lookup, Lit.toPy, Val.truthy, truthy, styleCx_camel, hcam, aliasOK,
+        Val.mutable, assocSet, pyCompare, compareB, bnot, pyEq, hpe, getField, Field.toVal, hashable,
+        setItemAt, dSet_embAL, putField, styleCx_ensure, ofStyle, optV, resultOf, Attrs.emptyVal]
+  · rcases v with _ | _ | ⟨c, r⟩ <;> simp only [optV] at h1 ⊢
+    · cases hg : Attrs.aget n e.sty <;>
+        simp [execL, execS, h1, hres', eval, evalList, List.lookup, Lit.toPy, Val.truthy, truthy, styleCx_camel, hcam, aliasOK,
+          Val.mutable, assocSet, pyCompare, compareB, bnot, pyEq, hpe, pyIn, hashable, any_embAL, hg, getField, Field.toVal,
+          delItemAt, dGet_embAL, dDel_embAL, putField, styleCx_ensure, ofStyle, optV, resultOf, Attrs.emptyVal, adel_absent, hne]
+    · cases hg : Attrs.aget n e.sty <;>
+        simp [execL, execS, h1, hres', eval, evalList, List.lookup, Lit.toPy, Val.truthy, truthy, styleCx_camel, hcam, aliasOK,
+          Val.mutable, assocSet, pyCompare, compareB, bnot, pyEq, hpe, pyIn, hashable, any_embAL, hg, getField, Field.toVal,
+          delItemAt, dGet_embAL, dDel_embAL, putField, styleCx_ensure, ofStyle, optV, resultOf, Attrs.emptyVal, adel_absent, hne]
+    · simp [execL, execS, h1, hres', eval, evalList, List.lookup, Lit.toPy, Val.truthy, truthy, styleCx_camel, hcam, aliasOK,
+        Val.mutable, assocSet, pyCompare, compareB, bnot, pyEq, hpe, getField, Field.toVal, hashable,
+        setItemAt, dSet_embAL, putField, styleCx_ensure, ofStyle, optV, resultOf, Attrs.emptyVal, hne]
+
 end AHP.C10Code
